@@ -835,6 +835,12 @@ DIRECTED = {
         "t.go": 'package main\n\ntype Host string\ntype Port int\ntype Secret string\n\ntype Config struct {\n\tHost   Host\n\tSecret Secret `wire:"-"`\n\tPort   Port\n}\n\nfunc ProvideHost() Host     { return "h" }\nfunc ProvidePort() Port     { return 80 }\nfunc ProvideSecret() Secret { return "s3" }\n\ntype App struct {\n\tC *Config\n\tS Secret\n}\n\nfunc NewApp(c *Config, s Secret) *App { return &App{c, s} }\n',
         "main.go": 'package main\n\nfunc main() { a := InitApp(); println(string(a.C.Host), int(a.C.Port), "[" + string(a.C.Secret) + "]", string(a.S)) }\n',
         "wire.go": '//go:build wireinject\n\npackage main\n\nimport "github.com/google/wire"\n\nfunc InitApp() *App {\n\twire.Build(ProvideHost, ProvidePort, ProvideSecret, wire.Struct(new(Config), "*"), NewApp)\n\treturn nil\n}\n'},
+    # fields that are NOT filled (tagged `wire:"-"`, or not listed) have types of packages nothing else in the output
+    # mentions: their imports must not reach the migrated file
+    "struct_skipped_field_imports": {
+        "t.go": 'package main\n\nimport (\n\t"sync"\n\t"time"\n)\n\ntype Addr string\ntype Base string\n\ntype Server struct {\n\tAddr Addr\n\tmu   sync.Mutex `wire:"-"`\n\tMu2  sync.Mutex `wire:"-"`\n}\n\ntype Client struct {\n\tBase    Base\n\tTimeout time.Duration\n}\n\nfunc NewAddr() Addr { return ":80" }\nfunc NewBase() Base { return "b" }\nfunc (s *Server) Lock() { s.mu.Lock(); s.Mu2.Lock() }\n',
+        "main.go": 'package main\n\nfunc main() { println(string(InitServer().Addr), string(InitClient().Base), int(InitClient().Timeout)) }\n',
+        "wire.go": '//go:build wireinject\n\npackage main\n\nimport "github.com/google/wire"\n\nfunc InitServer() *Server {\n\twire.Build(NewAddr, wire.Struct(new(Server), "*"))\n\treturn nil\n}\n\nfunc InitClient() *Client {\n\twire.Build(NewBase, wire.Struct(new(Client), "Base"))\n\treturn nil\n}\n'},
     # wire.Struct(new(T)) without field names fills no field (repaired: it was migrated as "*")
     "struct_no_field_names": {
         "t.go": 'package main\n\ntype Host string\n\ntype Config struct{ Host Host }\n\nfunc ProvideHost() Host { return "h" }\n\ntype App struct {\n\tC *Config\n\tH Host\n}\n\nfunc NewApp(c *Config, h Host) *App { return &App{c, h} }\n',
